@@ -8,6 +8,15 @@ from ckl.errors import CklRuntimeError
 from ckl.date import to_oa_date, to_date
 
 
+def date_from_number(value, pos=None):
+    try:
+        return ValueDate(to_date(value))
+    except (ValueError, OverflowError):
+        raise CklRuntimeError(
+            ValueString("ERROR"), f"Cannot convert {value} to date", pos
+        )
+
+
 class Args:
     def __init__(self, pos):
         self.argNames = []
@@ -832,7 +841,7 @@ class ValueDecimal(Value):
         return self
 
     def asDate(self):
-        return ValueDate(to_date(self.value))
+        return date_from_number(self.value)
 
     def asList(self):
         return ValueList().addItem(self)
@@ -962,7 +971,7 @@ class ValueInt(Value):
         return ValueBoolean.fromval(self.value != 0)
 
     def asDate(self):
-        return ValueDate(to_date(self.value))
+        return date_from_number(self.value)
 
     def asList(self):
         return ValueList().addItem(self)
